@@ -45,6 +45,10 @@ type C16Case struct {
 	O      int       `json:"o"`
 	Init   int       `json:"init"` // 0 default initializers, 1 custom Full, 2 custom Uniform / Normal, 3 one Full object for both
 	Rounds []FCRound `json:"rounds"`
+	// Other: a second FC layer of the same dimensions is constructed before (1) or after (2) the
+	// checked one; in every round its parameters are replaced, it evaluates another batch and
+	// is back-propagated right before the checked layer's Forward
+	Other int `json:"other,omitempty"`
 }
 
 func init() { register("C16/fc", checkC16) }
@@ -56,6 +60,9 @@ func genC16(t *rapid.T) C16Case {
 	}
 	if rapid.IntRange(0, 15).Draw(t, "manyouts") == 0 {
 		c.O = rapid.IntRange(6, 40).Draw(t, "wideo")
+	}
+	if rapid.IntRange(0, 2).Draw(t, "otherlayer") == 0 {
+		c.Other = rapid.IntRange(1, 2).Draw(t, "otherwhen")
 	}
 	nr := rapid.IntRange(1, 4).Draw(t, "rounds")
 	for r := 0; r < nr; r++ {
@@ -110,9 +117,30 @@ func checkC16(c C16Case) *Failure {
 		}
 		conf.Initializers = map[string]layers.Initializer{"Weight": u, "Bias": n}
 	}
+	newOther := func() (*layers.FC, error) {
+		return layers.NewFC(&layers.FCConfig{Inputs: c.F, Outputs: c.O, Initializers: map[string]layers.Initializer{
+			"Weight": initializers.NewFull(&initializers.FullConfig{Value: -3.5}),
+			"Bias":   initializers.NewFull(&initializers.FullConfig{Value: 11}),
+		}})
+	}
+	var other *layers.FC
+	var err error
+	if c.Other == 1 {
+		if other, err = newOther(); err != nil {
+			return failf("NewFC(%d -> %d) failed: %v", c.F, c.O, err)
+		}
+	}
 	fc, err := layers.NewFC(conf)
 	if err != nil {
 		return failf("NewFC(%d -> %d) failed: %v", c.F, c.O, err)
+	}
+	if c.Other > 0 {
+		evid.Class("C16.second_layer_in_use")
+	}
+	if c.Other == 2 {
+		if other, err = newOther(); err != nil {
+			return failf("NewFC(%d -> %d) failed: %v", c.F, c.O, err)
+		}
 	}
 	first := fc.Weights()
 	if len(first) != 2 || first[0].Value == nil || first[1].Value == nil {
@@ -164,6 +192,26 @@ func checkC16(c C16Case) *Failure {
 				if !lib.SameBits(wV[k], rd.NewW[k]) {
 					return failf("round %d: Weights()[0] does not address the tensor just installed", ri)
 				}
+			}
+		}
+		if other != nil {
+			// the other layer is used like any layer: new parameters, a forward pass, a backward pass
+			ow := other.Weights()
+			ov := make([]float64, c.O)
+			for k := range ov {
+				ov[k] = 2.5 + float64(k+ri)
+			}
+			*ow[0].Value = lib.MustNew([]int{c.O}, ov, true)
+			xo := make([]float64, (rd.Batch+1)*c.F)
+			for k := range xo {
+				xo[k] = -1.25 * float64(k+1)
+			}
+			yo, err := other.Forward(lib.MustNew([]int{rd.Batch + 1, c.F}, xo, true))
+			if err != nil {
+				return failf("round %d: Forward of a second layer failed: %v", ri, err)
+			}
+			if err := tensor.BackPropagate(yo); err != nil {
+				return failf("round %d: BackPropagate through a second layer failed: %v", ri, err)
 			}
 		}
 		x := lib.MustNew([]int{rd.Batch, c.F}, rd.X, rd.XTracked)
@@ -231,7 +279,15 @@ func checkC16(c C16Case) *Failure {
 		both := rd.Both && rd.Batch == 1 // (batch 1: the expected sum does not involve finding D2)
 		var want2 ref.T
 		if both {
-			// the second graph over the same parameters, built before the first back-propagation
+			// the second graph over the same parameters, built before the first back-propagation;
+			// the gradients are read in between (reading is an observation, not a step)
+			for _, pt := range []tensor.Tensor{wT, bT, x} {
+				if g := pt.Gradient(); g != nil {
+					if _, _, err := lib.Read(g); err != nil {
+						return failf("round %d: gradient unreadable between two back-propagations: %v", ri, err)
+					}
+				}
+			}
 			z2, err := y2.Mul(gt)
 			if err != nil {
 				return failf("round %d: weighting failed: %v", ri, err)
@@ -375,6 +431,9 @@ type C17Case struct {
 	// and intermediate results) is updated by the same optimizer: 1 = each through a pointer
 	// variable of its own, 2 = all through the one pointer variable that served the weight
 	Others int `json:"others,omitempty"`
+	// Second optimizer with another learning rate, constructed before (1) or after (2) the
+	// checked one; it updates a tensor of its own right before every Update of the checked one
+	OtherOpt int `json:"other_opt,omitempty"`
 }
 
 func init() { register("C17/sgd", checkC17) }
@@ -424,6 +483,9 @@ func genC17(t *rapid.T) C17Case {
 	if rapid.IntRange(0, 2).Draw(t, "others") == 0 {
 		c.Others = rapid.IntRange(1, 2).Draw(t, "otherskind")
 	}
+	if rapid.IntRange(0, 2).Draw(t, "otheropt") == 0 {
+		c.OtherOpt = rapid.IntRange(1, 2).Draw(t, "otheroptwhen")
+	}
 	return c
 }
 
@@ -437,12 +499,44 @@ func checkC17(c C17Case) *Failure {
 		conf = &optimizers.SGDConfig{LearningRate: c.LR}
 		lr = c.LR
 	}
+	var otherOpt *optimizers.SGD
+	if c.OtherOpt == 1 {
+		otherOpt = optimizers.NewSGD(&optimizers.SGDConfig{LearningRate: lr + 0.375})
+	}
 	opt := optimizers.NewSGD(conf)
 	if opt == nil {
 		return failf("NewSGD returned nil")
 	}
 	if conf != nil {
 		conf.LearningRate = 123 // the caller reuses its config struct for the next optimizer
+	}
+	if c.OtherOpt == 2 {
+		otherOpt = optimizers.NewSGD(&optimizers.SGDConfig{LearningRate: lr + 0.375})
+	}
+	if otherOpt != nil {
+		evid.Class("C17.second_optimizer_in_use")
+	}
+	otherStep := func() *Failure {
+		if otherOpt == nil {
+			return nil
+		}
+		u := lib.MustNew([]int{3}, []float64{1, 2, 3}, true)
+		if err := tensor.BackPropagate(u.Scale(2)); err != nil {
+			return failf("BackPropagate failed: %v", err)
+		}
+		if err := otherOpt.Update(&u); err != nil {
+			return failf("Update by a second optimizer failed: %v", err)
+		}
+		_, uv, err := lib.Read(u)
+		if err != nil || len(uv) != 3 {
+			return failf("result of a second optimizer's Update unreadable: %v", err)
+		}
+		for k := range uv {
+			if want := float64(k+1) - (lr+0.375)*2; math.Abs(uv[k]-want) > 1e-12*(math.Abs(want)+4) {
+				return failf("a second optimizer with learning rate %v (the checked one has %v) moved %v to %v instead of %v", lr+0.375, lr, float64(k+1), uv[k], want)
+			}
+		}
+		return nil
 	}
 	switch c.Mode {
 	case 1:
@@ -491,6 +585,9 @@ func checkC17(c C17Case) *Failure {
 	hasGrad := c.P.Reach(len(lv)-1, tr)[0]
 	if before.HasG != hasGrad {
 		return failf("weight gradient non-nil = %v, expected %v", before.HasG, hasGrad)
+	}
+	if f := otherStep(); f != nil {
+		return f
 	}
 	err = opt.Update(&w)
 	after, serr := lib.Snap(old)
@@ -552,6 +649,9 @@ func checkC17(c C17Case) *Failure {
 				p = &own
 			}
 			*p = x
+			if f := otherStep(); f != nil {
+				return f
+			}
 			if err := opt.Update(p); err != nil {
 				return failf("Update of value %d (shape %v, has a gradient; the optimizer updated %d other tensors before) failed: %v", i, xb.Shape, updated+1, err)
 			}
@@ -613,6 +713,9 @@ func checkC17(c C17Case) *Failure {
 			}
 		}
 		w2 := old
+		if f := otherStep(); f != nil {
+			return f
+		}
 		if err := opt.Update(&w2); err != nil {
 			return failf("second Update of the same tensor object failed: %v", err)
 		}
